@@ -1,4 +1,51 @@
-(* C02 — property theorems (under construction) *)
-From Coq Require Import List ZArith.
-From AV Require Import Engine.Core Engine.Sem Engine.Eval.
+(* C02 — parallel evaluation equals serial evaluation under every schedule (relations; see PARTIAL below).
+   Property theorems only; proofs in Engine/{ParSched,ParProofs,MainPar}.v.  Model: Engine/ParStep.v — workers
+   perform atomic steps (frozen reads of total / delta, atomic insert_if_not_present into new, push + index update
+   after a successful insert); a schedule is an arbitrary list of worker numbers. *)
+From Coq Require Import List ZArith Bool Permutation.
+From AV Require Import Engine.Core Engine.Sem Engine.Eval Engine.Validate Engine.Naive Engine.Interface Engine.Main.
+From AV Require Import Engine.ParStep Engine.InterfacePar Engine.ParProofs Engine.MainPar.
 Import ListNotations.
+
+(* one iteration: for every distribution of the derived facts over the workers and every interleaving that lets all
+   workers finish, `new` holds exactly what the serial head update adds, each fact once, each pushed as a row exactly
+   once, and __changed is set iff something was added *)
+Theorem c02_iteration_schedule_independent : forall T D R work sched,
+  let st' := run_sched T D (par_init R work) sched in
+  finished st' = true ->
+  let serial := fold_left (head_update T D) (concat work) ([], R) in
+  Permutation (pN st') (fst serial)
+  /\ NoDup (pN st')
+  /\ (exists A, pR st' = R ++ A /\ Permutation A (pN st'))
+  /\ pchanged st' = negb (match pN st' with [] => true | _ => false end).
+Proof. exact par_iteration_serial. Qed.
+
+(* no deadlock in the modelled discipline: an unfinished state always has an enabled worker *)
+Theorem c02_progress : forall T D st, finished st = false -> exists i, step_worker T D st i <> st.
+Proof. exact par_progress. Qed.
+
+(* whole runs: every parallel run computes the least model, keeps the inputs in place, adds each fact once *)
+Theorem c02_par_run_least_model : forall (I : interp) swap arities P pl F0 st,
+  arities_functional arities -> wf_facts arities F0 = true -> no_agg P = true ->
+  validate arities P pl = true ->
+  par_run_plan I swap pl (init_state F0) st ->
+  least_model I P F0 (rows st)
+  /\ exists added, rows st = F0 ++ added /\ NoDup added /\ (forall f, In f added -> ~ In f F0).
+Proof. exact par_run_correct_full. Qed.
+
+(* ... hence the same relations as the serial macros, for every schedule *)
+Theorem c02_par_equals_serial : forall I swap swap' arities P pl fuel F0 st_par st_ser,
+  arities_functional arities -> wf_facts arities F0 = true -> no_agg P = true -> validate arities P pl = true ->
+  par_run_plan I swap pl (init_state F0) st_par ->
+  run_plan I swap' fuel pl (init_state F0) = Some st_ser ->
+  same_set (rows st_par) (rows st_ser).
+Proof. exact par_equals_serial. Qed.
+
+(* PARTIAL: (a) programs with aggregation / negation and lattice relations (key mutex + re-check protocol) are
+   exercised by the tie but not covered by these theorems; (b) RESIDUE that no executable model can exhibit: the
+   real DashMap / RwLock / Mutex / boxcar implementations, rayon's work stealing and the Relaxed store to __changed
+   being visible after the scope's join are assumed linearizable / correct (trusted base); the schedule space of the
+   real binary is sampled under seeded perturbation (gen/props/c02.py), not enumerated. *)
+
+Print Assumptions c02_iteration_schedule_independent. Print Assumptions c02_progress.
+Print Assumptions c02_par_run_least_model. Print Assumptions c02_par_equals_serial.
